@@ -24,7 +24,9 @@ type qcScenario struct {
 	Close     bool
 }
 
-func (q qcScenario) String() string { return fmt.Sprintf("producers=%v close=%v", q.Producers, q.Close) }
+func (q qcScenario) String() string {
+	return fmt.Sprintf("producers=%v close=%v", q.Producers, q.Close)
+}
 
 func qcScenarios() []qcScenario {
 	return []qcScenario{
@@ -149,7 +151,9 @@ type epScenario struct {
 	Restart int // calls on a fresh generator afterwards (0 = no restart)
 }
 
-func (e epScenario) String() string { return fmt.Sprintf("threads=%d restart-calls=%d", e.Threads, e.Restart) }
+func (e epScenario) String() string {
+	return fmt.Sprintf("threads=%d restart-calls=%d", e.Threads, e.Restart)
+}
 
 func epScenarios() []epScenario {
 	if report.Tier() != "thorough" {
